@@ -114,7 +114,9 @@ def gen_cases(ctx):
                 cases.append(("same-coder-twice", True, "c07 rt2 %s %d %d %d %d %d %s %s" % (kind, d, p, rng.choice([1, 2]), rng.choice([1, 9]), rng.randrange(1 << 30), "".join(kd), " ".join(kps))))
     # large valid Cauchy codes: the constructor must succeed (new_coder = Ok by its definition and C07_cauchy_wf);
     # run on the implementation only - the extracted model is quadratic in d for unary indices
-    for kind, d, p in (("cauchy", 40000, 2), ("cauchy", 32769, 2), ("cauchy", 2, 40000), ("cauchy", 3, 32770)):
+    # ... and the documented maxima of the PAR2 code: 32768 data shards, 65535 parity shards
+    for kind, d, p in (("cauchy", 40000, 2), ("cauchy", 32769, 2), ("cauchy", 2, 40000), ("cauchy", 3, 32770),
+                       ("vandermonde", 1, 65535), ("vandermonde", 2, 65534), ("vandermonde", 32768, 1)):
         cases.append(("limits-implonly", False, "c07 new %s %d %d 1" % (kind, d, p)))
     return cases
 
